@@ -222,9 +222,9 @@ _BUNDLE = [("bundle", 500, 10000)]
 _ADDR = [("addr", 1500, 40000), ("resolve", 300, 8000), ("registry", 1000, 20000)]
 _NEIGHBOURS = {
     "C01": _UNPACK, "C02": _PACK + _UNPACK, "C03": _PACK + [("sanitise", 500, 10000)], "C04": _UNPACK,
-    "C05": _PACK + [("unpack", 500, 10000)], "C06": _ADDR, "C07": _ADDR, "C08": _BUILDER + _BUNDLE,
+    "C05": _PACK + [("unpack", 500, 10000)], "C06": _ADDR + [("builder", 300, 8000)], "C07": _ADDR, "C08": _BUILDER + _BUNDLE,
     "C09": _BUILDER + _BUNDLE, "C10": [("sanitise", 500, 10000), ("ignore", 600, 15000), ("builder", 300, 8000)],
-    "C11": _ADDR, "C12": _UNPACK + _BUILDER + [("pack-faults", 3, 20)], "C13": _BUILDER + _BUNDLE, "C14": _BUILDER,
+    "C11": _ADDR + [("builder", 300, 8000)], "C12": _UNPACK + _BUILDER + [("pack-faults", 3, 20)], "C13": _BUILDER + _BUNDLE, "C14": _BUILDER,
     "C15": _UNPACK, "C16": _PACK, "C17": _BUILDER, "C18": _BUNDLE + [("builder", 300, 8000), ("bundle-roundtrip", 20, 400)],
     "C19": _PACK + _UNPACK + _ADDR + _BUNDLE + [("builder", 300, 8000)], "C20": _PACK,
 }
